@@ -21,6 +21,7 @@ import (
 	"vharness/common"
 	"vharness/ctxload"
 	"vharness/docgen"
+	"vharness/hashers"
 	"vharness/mzrun"
 )
 
@@ -423,6 +424,62 @@ func fixedInput(hi int, seed int64) c02.Input {
 		DocPaths: fields, CtxBytes: cb, TypeTerm: "Person", FieldPaths: fields}
 }
 
+// hashValueBoundary: merklize.HashValueWithHasher(h, xsd integer type, v) at the edges of the ranges of
+// h's prime p: accepted exactly for lo <= v <= hi of the type, encoded as v / p+v.
+func (d *drv) hashValueBoundary(hi int, sh *c02.Shards) {
+	h := c02.Families()[hi]
+	p := h.Prime()
+	half := new(big.Int).Rsh(new(big.Int).Sub(p, big.NewInt(1)), 1)
+	add := func(a *big.Int, k int64) *big.Int { return new(big.Int).Add(a, big.NewInt(k)) }
+	neg := func(a *big.Int) *big.Int { return new(big.Int).Neg(a) }
+	type rng struct {
+		dt     string
+		lo, hi *big.Int
+	}
+	rs := []rng{
+		{"integer", neg(half), half},
+		{"positiveInteger", big.NewInt(1), add(p, -1)},
+		{"nonNegativeInteger", big.NewInt(0), add(p, -1)},
+		{"negativeInteger", neg(half), big.NewInt(-1)},
+		{"nonPositiveInteger", neg(half), big.NewInt(0)},
+	}
+	vals := []*big.Int{half, add(half, 1), add(half, 2), add(p, -2), add(p, -1), new(big.Int).Set(p), add(p, 1),
+		neg(half), add(neg(half), -1), add(neg(half), -3), big.NewInt(-1), big.NewInt(0), big.NewInt(1),
+		add(half, -1), add(neg(half), 1)}
+	for _, r := range rs {
+		for _, v := range vals {
+			var args []any
+			args = append(args, v.String())
+			if v.IsInt64() {
+				args = append(args, v.Int64())
+			}
+			for _, a := range args {
+				rc := hashers.NewRecorder(c02.Families()[hi])
+				got, err := merklize.HashValueWithHasher(rc, xsd+r.dt, a)
+				d.rep.Evaluations++
+				d.rep.Count("hashvalue-boundary")
+				in := map[string]any{"hash_value": true, "hasher": hi, "datatype": xsd + r.dt, "value": fmt.Sprint(a), "go_int": fmt.Sprintf("%T", a) == "int64"}
+				inRange := v.Cmp(r.lo) >= 0 && v.Cmp(r.hi) <= 0
+				want := new(big.Int).Set(v)
+				if v.Sign() < 0 {
+					want.Add(want, p)
+				}
+				switch {
+				case inRange && (err != nil || got == nil || got.Cmp(want) != 0):
+					d.rep.Fail("c16-hashvalue-int-range", fmt.Sprintf("HashValueWithHasher(%s, xsd:%s, %v): in range of the hasher's prime %v but result %v, %v", c02.FamilyName(hi), r.dt, a, p, got, err), in)
+				case !inRange && err == nil:
+					d.rep.Fail("c16-hashvalue-int-range", fmt.Sprintf("HashValueWithHasher(%s, xsd:%s, %v) = %v: outside the range of the hasher's prime %v but accepted", c02.FamilyName(hi), r.dt, a, got, p), in)
+				}
+				var out *big.Int
+				if err == nil {
+					out = got
+				}
+				sh.AddCase(&c02.HVCase{In: in, H: rc, DT: xsd + r.dt, V: a, Out: out})
+			}
+		}
+	}
+}
+
 func hashValueArg(v any) any {
 	if b, ok := v.(*big.Int); ok {
 		return b.String()
@@ -452,6 +509,27 @@ func Run(cfg *common.Config) (*common.Report, error) {
 	d := &drv{e: e, rep: rep, cfg: cfg}
 	sh := &c02.Shards{Env: e, Size: 10}
 	if cfg.Replay != "" {
+		var hv struct {
+			Input struct {
+				HashValue bool   `json:"hash_value"`
+				Hasher    int    `json:"hasher"`
+				Datatype  string `json:"datatype"`
+				Value     string `json:"value"`
+				GoInt     bool   `json:"go_int"`
+			} `json:"input"`
+		}
+		if common.ReadJSON(cfg.Replay, &hv) == nil && hv.Input.HashValue {
+			var a any = hv.Input.Value
+			if hv.Input.GoInt {
+				z, _ := new(big.Int).SetString(hv.Input.Value, 10)
+				a = z.Int64()
+			}
+			rc := hashers.NewRecorder(c02.Families()[hv.Input.Hasher])
+			got, err := merklize.HashValueWithHasher(rc, hv.Input.Datatype, a)
+			fmt.Printf("replay: HashValueWithHasher(%s, %s, %v) = %v, %v (prime %v)\n", c02.FamilyName(hv.Input.Hasher), hv.Input.Datatype, a, got, err, rc.Prime())
+			d.hashValueBoundary(hv.Input.Hasher, sh)
+			return rep, sh.Write("C16")
+		}
 		if sin, ok := c02.ReadSharedReplay(cfg, e.Loader); ok {
 			if s := e.SharedScenario(sin); s != nil {
 				fmt.Printf("replay: shared-tree scenario, %d documents, %d merklizers\n", len(sin.Docs), len(s.Mzs))
@@ -548,6 +626,20 @@ func Run(cfg *common.Config) (*common.Report, error) {
 		in3.Cfg, in3.DefaultFamily, in3.SetAfter, in3.DSLevel = false, hi, 1+(hi+1)%nfam, false
 		rep.Count("sethasher-after-build")
 		sh.Add(d.scenario(in3))
+	}
+	// the hand-written must-resolve documents of C02 under configured hashers
+	for _, hi := range []int{2, 4, 8} {
+		for _, in := range c02.FixedInputs(hi, true, cfg.Rng) {
+			rep.Distinct(fmt.Sprintf("fixed2|%s|%d", in.Doc, hi))
+			rep.Count("fixed-document")
+			sh.Add(d.scenario(in))
+		}
+	}
+	// standalone HashValueWithHasher: the given hasher's PRIME decides the integer range
+	for hi := 0; hi < nfam; hi++ {
+		if cfg.Thorough() || hi == 0 || (hi >= 4 && hi <= 7) {
+			d.hashValueBoundary(hi, sh)
+		}
 	}
 	// several configured merklizers on one caller-provided tree (every hasher family)
 	for i := 0; i < cfg.Pick(nfam, 10*nfam); i++ {
